@@ -104,7 +104,7 @@ func c03RawLine(t *rapid.T, side int) gm.G {
 func c03Gen(t *rapid.T, cx *h.Ctx) C03Case {
 	c := C03Case{}
 	side := rapid.IntRange(3, 6).Draw(t, "side")
-	fam := rapid.IntRange(0, 10).Draw(t, "family")
+	fam := rapid.IntRange(0, 11).Draw(t, "family")
 	typ := rapid.SampledFrom(gm.Types).Draw(t, "type")
 	switch {
 	case fam <= 3: // raw rings/lines without acceptance
@@ -202,6 +202,40 @@ func c03Gen(t *rapid.T, cx *h.Ctx) C03Case {
 			far := gm.G{T: gm.Polygon, Rings: [][]gm.F{gm.Fs(20, 20, 22, 20, 22, 22, 20, 20)}}
 			c.G = gm.G{T: gm.MultiPolygon, Mem: []gm.G{far, po, {T: gm.Polygon}, pi}}
 		}
+	case fam == 11: // a chain of triangular holes from the shell inwards: the first touches the shell at a vertex,
+		// each next one touches its predecessor at a vertex; the last may reach the opposite side (interior cut in two)
+		c.Family = "hole-chain"
+		m := rapid.IntRange(1, 3).Draw(t, "chainlen")
+		y := rapid.IntRange(3, 5).Draw(t, "chainy")
+		// slack 0: the far edge of the last hole lies on the right side of the shell
+		W := 2*m + rapid.IntRange(0, 2).Draw(t, "chainslack")
+		poly := gm.G{T: gm.Polygon, Rings: [][]gm.F{gm.Fs(0, 0, float64(W), 0, float64(W), 8, 0, 8, 0, 0)}}
+		var holes [][]gm.F
+		for i := 0; i < m; i++ {
+			// link i: apex (2i, y), far vertices (2i+2, y-1) and (2i+2, y+1); the next apex is one of the far vertices
+			x, yy := float64(2*i), float64(y)
+			holes = append(holes, gm.Fs(x, yy, x+2, yy-1, x+2, yy+1))
+			y += rapid.SampledFrom([]int{-1, 1}).Draw(t, "chainside")
+		}
+		// hole order, ring start and direction as listed are part of the case (the representation change permutes again)
+		for i := len(holes) - 1; i > 0; i-- {
+			j := rapid.IntRange(0, i).Draw(t, "chainperm")
+			holes[i], holes[j] = holes[j], holes[i]
+		}
+		for _, hl := range holes {
+			r := rapid.IntRange(0, 2).Draw(t, "chainrot")
+			rev := rapid.Bool().Draw(t, "chainrev")
+			var ring []gm.F
+			for k := 0; k <= 3; k++ {
+				idx := (r + k) % 3
+				if rev {
+					idx = (r + 3 - k%3) % 3
+				}
+				ring = append(ring, hl[2*idx], hl[2*idx+1])
+			}
+			poly.Rings = append(poly.Rings, ring)
+		}
+		c.G = poly
 	default: // non-finite ordinates injected into a valid geometry
 		c.Family = "nonfinite"
 		cpx := gen.DrawComplex(t, 2, [2]int{0, 0})
@@ -219,6 +253,13 @@ func c03Gen(t *rapid.T, cx *h.Ctx) C03Case {
 				dim2 = rapid.IntRange(0, gm.Dim(ct)-1).Draw(t, "nfdim2")
 				val2 = rapid.SampledFrom([]float64{math.NaN(), math.Inf(1), math.Inf(-1)}).Draw(t, "nfval2")
 			}
+			// sometimes a further non-finite value in another position (a Z/M one ahead of an X/Y one, ...)
+			target3, dim3, val3 := -1, 0, 0.0
+			if rapid.IntRange(0, 2).Draw(t, "nfthird") == 0 {
+				target3 = rapid.IntRange(0, np-1).Draw(t, "nfpos3")
+				dim3 = rapid.IntRange(0, gm.Dim(ct)-1).Draw(t, "nfdim3")
+				val3 = rapid.SampledFrom([]float64{math.NaN(), math.Inf(1), math.Inf(-1)}).Draw(t, "nfval3")
+			}
 			i := 0
 			g = g.MapPositions(func(p []gm.F, _ int) []gm.F {
 				if i == target {
@@ -226,6 +267,9 @@ func c03Gen(t *rapid.T, cx *h.Ctx) C03Case {
 					if dim2 >= 0 && dim2 != dim {
 						p[dim2] = gm.F(val2)
 					}
+				}
+				if i == target3 {
+					p[dim3] = gm.F(val3)
 				}
 				i++
 				return p
@@ -445,6 +489,32 @@ func c03Check(c C03Case, cx *h.Ctx) *h.Failure {
 			}
 		}
 	}
+	// the validating operation: Simplify without NoValidate fails exactly when what it would return is invalid
+	// (the oracle's verdict on that result, which again has integer ordinates)
+	if c03AllFinite(model) && c.Family != "wide" {
+		for _, th := range []float64{0, 0.75} {
+			var r2 geom.Geometry
+			var err1, err2 error
+			h.Lib("Simplify", func() {
+				r2, err2 = g.Simplify(th, geom.NoValidate{})
+				_, err1 = g.Simplify(th)
+			})
+			if err2 != nil {
+				continue
+			}
+			rv := exact.Valid(gm.FromGeom(r2).Norm())
+			if (err1 == nil) != (rv == nil) {
+				rrule := "valid"
+				if rv != nil {
+					rrule = rv.Rule
+				}
+				return h.Failf("validate/simplify-gate", "Simplify(%g) error = %v, but the oracle says %s for what it returns with NoValidate: %s\ng = %s", th, err1, rrule, clip(r2.AsText(), 300), model)
+			}
+			if rv != nil {
+				cx.Count("simplify_gate_refusals", 1)
+			}
+		}
+	}
 	nRings, nMem := 0, 0
 	model.Walk(func(n gm.G) {
 		nRings += len(n.Rings)
@@ -607,13 +677,63 @@ func c03Enumerate(cx *h.Ctx, yield func(C03Case)) []string {
 			}
 		}
 	}
-	return []string{"every non-degenerate triangle and every axis-parallel rectangle with vertices on the 4x4 grid {1..4}^2 as an additional ring of the shell (0 0,5 0,5 5,0 5), with and without the hole (1 1,4 1,4 4,1 4), under every start vertex and both directions"}
+	// wide geometries: more rings / polygons than any drawn case has (counters and index types around 128 and 256)
+	sq := func(x0, y0, x1, y1 int) []gm.F {
+		return gm.Fs(float64(x0), float64(y0), float64(x1), float64(y0), float64(x1), float64(y1), float64(x0), float64(y1), float64(x0), float64(y0))
+	}
+	wide := []int{127, 128, 129}
+	if cx.Thorough {
+		// (the exact oracle is quadratic in the number of rings: about a minute per case at 257)
+		wide = append(wide, 255, 256, 257)
+	}
+	for _, k := range wide {
+		for v := 0; v < 4; v++ {
+			// a row of k unit-square holes in a long shell; the last hole is (0) in line, (1) a copy of the first or
+			// of its neighbour, (2) outside the shell, (3) sharing an edge with its neighbour
+			poly := gm.G{T: gm.Polygon, Rings: [][]gm.F{sq(0, 0, 3*k, 3)}}
+			for i := 0; i < k-1; i++ {
+				poly.Rings = append(poly.Rings, sq(3*i+1, 1, 3*i+2, 2))
+			}
+			last := sq(3*(k-1)+1, 1, 3*(k-1)+2, 2)
+			switch v {
+			case 1:
+				j := (k % 2) * (k - 2)
+				last = sq(3*j+1, 1, 3*j+2, 2)
+			case 2:
+				last = sq(3*k+1, 1, 3*k+2, 2)
+			case 3:
+				last = sq(3*(k-2)+2, 1, 3*(k-2)+3, 2)
+			}
+			poly.Rings = append(poly.Rings, last)
+			yield(C03Case{G: poly, RotSeed: []int{v}, Reverse: []bool{false}, PermSeed: []int{0}, Family: "wide"})
+			// k squares of side 2 in a row; the last one is (0) in line, (1) overlapping an earlier one, (2) inside
+			// an earlier one, (3) touching an earlier one at a corner only
+			mp := gm.G{T: gm.MultiPolygon}
+			for i := 0; i < k-1; i++ {
+				mp.Mem = append(mp.Mem, gm.G{T: gm.Polygon, Rings: [][]gm.F{sq(5*i, 0, 5*i+3, 3)}})
+			}
+			j := (k % 2) * (k - 2)
+			lastp := sq(5*(k-1), 0, 5*(k-1)+3, 3)
+			switch v {
+			case 1:
+				lastp = sq(5*j+2, 2, 5*j+4, 4)
+			case 2:
+				lastp = sq(5*j+1, 1, 5*j+2, 2)
+			case 3:
+				lastp = sq(5*j+3, 3, 5*j+4, 4)
+			}
+			mp.Mem = append(mp.Mem, gm.G{T: gm.Polygon, Rings: [][]gm.F{lastp}})
+			yield(C03Case{G: mp, RotSeed: []int{v}, Reverse: []bool{false}, PermSeed: []int{0}, Family: "wide"})
+		}
+	}
+	return []string{"every non-degenerate triangle and every axis-parallel rectangle with vertices on the 4x4 grid {1..4}^2 as an additional ring of the shell (0 0,5 0,5 5,0 5), with and without the hole (1 1,4 1,4 4,1 4), under every start vertex and both directions",
+		"polygons with 127..129 (thorough: ..257) holes and MultiPolygons with as many polygons: valid, and with the last ring / polygon duplicated, outside, edge-sharing, overlapping, nested or corner-touching"}
 }
 
 func TestC03(t *testing.T) {
 	h.Run(t, h.Prop[C03Case]{
 		ID:                "C03",
-		Rule:              "cases = a geometry built without validation on a dense integer grid (side 3..6): (raw) rings/lines from random or angularly sorted lattice points, rings reusing vertices of earlier rings, unclosed rings, repeated vertices, 1..4 rings, 1..3 polygons per MultiPolygon, nested collections; (complex) valid geometries traced from triangulated-grid subsets, optionally with one breaking edit (vertex moved, shell/hole swapped, ring duplicated, ring through two existing vertices, extra hole, polygon duplicated in its MultiPolygon); (nonfinite) NaN/+-Inf injected at one ordinate of a valid geometry in any coordinate type; plus an exhaustive sub-space. Each case is paired with a representation change (ring start rotation, ring/line reversal, hole and member permutation, integer translation, axis reflection/swap). Oracle = definitional validity in exact rational arithmetic (ring simplicity by pairwise exact intersection, rings meeting in <= 1 point, holes inside shell / not nested by exact point location, interior connectedness by union-find over slab cells, MultiPolygon interiors/boundaries via the exact arrangement); also IsSimple/IsRing/IsClosed definitional values and the validating WKT/WKB/GeoJSON/TWKB decoders as gates. non-trivial = >= 2 rings or >= 2 lineal/areal members",
+		Rule:              "cases = a geometry built without validation on a dense integer grid (side 3..6): (raw) rings/lines from random or angularly sorted lattice points, rings reusing vertices of earlier rings, unclosed rings, repeated vertices, 1..4 rings, 1..3 polygons per MultiPolygon, nested collections; (complex) valid geometries traced from triangulated-grid subsets, optionally with one breaking edit (vertex moved, shell/hole swapped, ring duplicated, ring through two existing vertices, extra hole, polygon duplicated in its MultiPolygon); (nonfinite) NaN/+-Inf injected at one ordinate of a valid geometry in any coordinate type, sometimes a second in the same and a third in another position; (hole-chain) triangular holes linked vertex to vertex from the shell inwards in drawn order/start/direction; plus an exhaustive sub-space and wide polygons / MultiPolygons (127..257 rings / members). Each case is paired with a representation change (ring start rotation, ring/line reversal, hole and member permutation, integer translation, axis reflection/swap). Oracle = definitional validity in exact rational arithmetic (ring simplicity by pairwise exact intersection, rings meeting in <= 1 point, holes inside shell / not nested by exact point location, interior connectedness by union-find over slab cells, MultiPolygon interiors/boundaries via the exact arrangement); also IsSimple/IsRing/IsClosed definitional values and the validating WKT/WKB/GeoJSON/TWKB decoders and Simplify (thresholds 0 and 0.75, verdict of the oracle on the NoValidate result) as gates. non-trivial = >= 2 rings or >= 2 lineal/areal members",
 		Assumptions:       []string{"exact kernel (internal/exact) implements the OGC validity rules as the library documents them (repeated consecutive vertices ignored)", "oracle invariance under the representation change is asserted per case (violation = kernel bug, exit 2)"},
 		Gen:               c03Gen,
 		Check:             c03Check,
